@@ -463,6 +463,11 @@ class AtomicOrbitalEvaluator:
         splits = np.concatenate([[0]] + [_splits[atom] for atom in self.atom_names])
         self.splits = np.cumsum(splits)
         self.max_l = np.asarray([max_l[atom] for atom in self.atom_names])
+        if self.max_l.max() > 5:
+            raise NotImplementedError(
+                "spherical harmonics are tabulated up to l=5; this basis has l=%d"
+                % self.max_l.max()
+            )
         # self.nbas_atom = np.asarray([np.sum(2 * ls + 1) for ls in self.basis_ls])
         self.l_splits = np.cumsum(
             [0] + [len(basis_ls[atom]) for atom in self.atom_names]
